@@ -155,6 +155,10 @@ def extBodyTicks (kind : ExtKind) (len : Nat) (rest : Bytes) : Nat :=
     vecItemsTicks (vp Gen.vec_TlsSupportedVersionVector) parseVersionOrFallback
       (codedOrFallbackTicks Gen.TlsVersion.codes 2) rest
   | .supportedVersionsServer => codedTicks Gen.TlsVersion.codes 2 rest
+  -- the structured bodies of CpModel/Tls/Ext2.lean are OUTSIDE the cost model (`ext2Outside`): their parsers are
+  -- not confined to the declared extension length, and for the name lists (ALPN/ALPS) and the SCT list a body read
+  -- far beyond the extension and then rejected as an invalid value is NOT paid for by the bytes the extension consumes
+  | .ext2 _ => 0
 
 /-- alternatives tried by the walk over the extension variant list (same recursion as `walkExtVariants`) -/
 def walkExtVariantsTicks (t len : Nat) (bs : Bytes) : List (String × Nat) → Nat
@@ -185,6 +189,18 @@ def walkExtBodyTicks (t len : Nat) (bs : Bytes) : List (String × Nat) → Nat
           | .error .invalidType => walkExtBodyTicks t len bs more
           | _ => 0
 
+/-- does the walk run the body parser of a class outside the cost model? (same recursion as `walkExtBodyTicks`) -/
+def walkExtOutside (t len : Nat) (bs : Bytes) : List (String × Nat) → Bool
+  | [] => false
+  | (cls, code) :: more =>
+    if cls == "TlsExtensionUnparsed" then false
+    else if code != t then walkExtOutside t len bs more
+    else
+      match extKindOf cls with
+      | none => true
+      | some (.ext2 _) => true
+      | some _ => false
+
 /-- `TlsExtensionVariantClient/Server._parse`: every alternative tried runs `_check_header` -/
 def extVariantTicks (variants : List (String × Nat)) (bs : Bytes) : Nat :=
   match parseCoded Gen.ExtensionType.codes 2 bs with
@@ -206,6 +222,38 @@ def extTicks (variants : List (String × Nat)) (bs : Bytes) : Nat :=
 
 def extensionsTicks (variants : List (String × Nat)) (p : VecParam) (bs : Bytes) : Nat :=
   vecItemsTicks p (parseExt variants) (extTicks variants) bs
+
+/-- one position of the extension vector reaches a class outside the cost model -/
+def extOutside (variants : List (String × Nat)) (bs : Bytes) : Bool :=
+  match parseCoded Gen.ExtensionType.codes 2 bs with
+  | .error _ => false
+  | .ok (ti, _) =>
+    match parseNum .network 2 (bs.drop 2) with
+    | .error _ => false
+    | .ok (len, _) =>
+      if (bs.drop 4).length < len then false
+      else walkExtOutside (Gen.ExtensionType.codes.getD ti 0) len bs variants
+
+/-- some position visited by the item loop satisfies `q` (same recursion as `Codec.parseItems`) -/
+def itemsAny (item : Bytes → Except PErr (α × Nat)) (q : Bytes → Bool) : Nat → Bytes → Bool
+  | 0, _ => false
+  | fuel + 1, b =>
+    if b.isEmpty then false
+    else q b ||
+      match item b with
+      | .error _ => false
+      | .ok (_, n) => if n == 0 then false else itemsAny item q fuel (b.drop n)
+
+/-- the extension vector of a hello message reaches a class outside the cost model -/
+def extensionsOutside (variants : List (String × Nat)) (p : VecParam) (bs : Bytes) : Bool :=
+  match parseNum .network p.numSize bs with
+  | .error _ => false
+  | .ok (len, n) =>
+    let rest := bs.drop n
+    if rest.length < len then false else itemsAny (parseExt variants) (extOutside variants) len (rest.take len)
+
+def optExtensionsOutside (variants : List (String × Nat)) (p : VecParam) (pl : Bytes) (pos : Nat) : Bool :=
+  if pos ≥ pl.length then false else extensionsOutside variants p (pl.drop pos)
 
 /-- `_parse_extensions`: the comparison, and the vector when something is left -/
 def optExtensionsTicks (variants : List (String × Nat)) (p : VecParam) (pl : Bytes) (pos : Nat) : Nat :=
@@ -248,6 +296,23 @@ def clientHelloInnerTicks (pl : Bytes) : Nat :=
 
 def clientHelloTicks (bs : Bytes) : Nat := hsFramedTicks 1 clientHelloInnerTicks bs
 
+/-- the ClientHello payload has an extension of a class outside the cost model -/
+def clientHelloInnerOutside (pl : Bytes) : Bool :=
+  match parseHelloHeader pl with
+  | .error _ => false
+  | .ok (_, n1) =>
+    match parseVecCoded cipherSuiteParam Gen.TlsCipherSuite.codes 2 (pl.drop n1) with
+    | .error _ => false
+    | .ok (_, n2) =>
+      match parseVecCoded compressionParam Gen.TlsCompressionMethod.codes 1 (pl.drop (n1 + n2)) with
+      | .error _ => false
+      | .ok (_, n3) => optExtensionsOutside Gen.extVariantsClient (vp Gen.vec_TlsExtensionsClient) pl (n1 + n2 + n3)
+
+def hsFramedOutside (typ : Nat) (inner : Bytes → Bool) (bs : Bytes) : Bool :=
+  match (hsHeaderCodec typ).parse bs with
+  | .ok (pl, _) => inner pl
+  | .error _ => false
+
 /-- `TlsHandshakeServerHello._parse` / `TlsHandshakeHelloRetryRequest._parse` on the payload -/
 def serverHelloInnerTicks (pl : Bytes) : Nat :=
   helloHeaderTicks pl +
@@ -266,11 +331,43 @@ def serverHelloInnerTicks (pl : Bytes) : Nat :=
 
 def serverHelloTicks (typ : Nat) (bs : Bytes) : Nat := hsFramedTicks typ serverHelloInnerTicks bs
 
+def serverHelloInnerOutside (pl : Bytes) : Bool :=
+  match parseHelloHeader pl with
+  | .error _ => false
+  | .ok (_, n1) =>
+    match parseCoded Gen.TlsCipherSuite.codes 2 (pl.drop n1) with
+    | .error _ => false
+    | .ok (_, n2) =>
+      match parseCoded Gen.TlsCompressionMethod.codes 1 (pl.drop (n1 + n2)) with
+      | .error _ => false
+      | .ok (_, n3) => optExtensionsOutside Gen.extVariantsServer (vp Gen.vec_TlsExtensionsServer) pl (n1 + n2 + n3)
+
 /-- `TlsCertificates._parse`: every certificate is one `parse_bytes` (length + raw) -/
 def certificatesTicks (pl : Bytes) : Nat :=
   vecItemsTicks certificatesParam (parseBytes .network 3) (fun _ => 2) pl
 
 def certificateTicks (bs : Bytes) : Nat := hsFramedTicks 11 certificatesTicks bs
+
+/-- `TlsDistinguishedNameVector._parse`: every name is one `Opaque._parse` -/
+def distinguishedNamesTicks (bs : Bytes) : Nat :=
+  vecItemsTicks distinguishedNameListParam (parseOpaque distinguishedNameParam) (opaqueTicks distinguishedNameParam) bs
+
+/-- `TlsHandshakeCertificateRequest._parse` on the payload: the certificate types, the look-ahead, the signature
+algorithms when present, the distinguished names -/
+def certificateRequestInnerTicks (pl : Bytes) : Nat :=
+  vecNumTicks clientCertificateTypeParam 1 pl +
+    match parseVecNum clientCertificateTypeParam 1 convCertificateType pl with
+    | .error _ => 0
+    | .ok (_, n1) =>
+      1 + match parseNum .network 2 (pl.drop n1) with
+          | .error _ => 0
+          | .ok (vl, _) =>
+            if vl + 2 == (pl.drop n1).length then distinguishedNamesTicks (pl.drop n1)
+            else
+              vecCodedTicks signatureAlgorithmsParam Gen.TlsSignatureAndHashAlgorithm.codes 2 (pl.drop n1) +
+                match parseVecCoded signatureAlgorithmsParam Gen.TlsSignatureAndHashAlgorithm.codes 2 (pl.drop n1) with
+                | .error _ => 0
+                | .ok (_, n2) => distinguishedNamesTicks (pl.drop (n1 + n2))
 
 /-- payload parsers of the other modelled handshake classes: a constant number of primitive calls -/
 def hsClassInnerTicks : HsClass → Bytes → Nat
@@ -281,6 +378,20 @@ def hsClassInnerTicks : HsClass → Bytes → Nat
   | .serverKeyExchange => fun _ => 1
   | .certificateStatus => fun _ => 3
   | .serverHelloDone => fun _ => 1
+  | .certificateRequest => certificateRequestInnerTicks
+
+/-- the payload of a handshake class reaches an extension class outside the cost model -/
+def hsClassInnerOutside : HsClass → Bytes → Bool
+  | .clientHello => clientHelloInnerOutside
+  | .serverHello | .helloRetryRequest => serverHelloInnerOutside
+  | _ => fun _ => false
+
+/-- `TlsHandshakeMessageVariant._parse` on this input reaches an extension class outside the cost model -/
+def handshakeVariantOutside (bs : Bytes) : Bool :=
+  Gen.handshakeVariants.any fun e =>
+    match hsClassOfName e.1 with
+    | some c => hsFramedOutside c.typ (hsClassInnerOutside c) bs
+    | none => false
 
 def hsClassTicks (c : HsClass) (bs : Bytes) : Nat := hsFramedTicks c.typ (hsClassInnerTicks c) bs
 
@@ -336,6 +447,10 @@ def serverHelloB : Nat :=
 def certificatesA : Nat := 4
 def certificatesB : Nat := 4
 
+/-- `certificateRequestInnerTicks pl ≤ certificateRequestA * pl.length + certificateRequestB` -/
+def certificateRequestA : Nat := 2 + codedVecA Gen.TlsSignatureAndHashAlgorithm.codes + 7
+def certificateRequestB : Nat := 3 + 1 + 4 + 4
+
 def recordB : Nat := Gen.TlsVersion.codes.length + 5
 
 /-! ## the class graph of the TLS model (who invokes whose parser) -/
@@ -344,22 +459,29 @@ inductive Cls where
   | record | alert | changeCipherSpec | applicationData
   | handshakeVariant
   | clientHello | serverHello | helloRetryRequest | certificate | serverKeyExchange | certificateStatus
-  | serverHelloDone | unmodelledHandshake
+  | serverHelloDone | certificateRequest | unmodelledHandshake
   | protocolVersion | helloRandom | sessionIdVector | cipherSuiteVector | compressionMethodVector
   | cipherSuite | compressionMethod
   | extensionsClient | extensionsServer | extensionVariantClient | extensionVariantServer
   | extensionParsed | extensionUnparsed | extensionType
   | codedVector | codedItem | renegotiatedConnection | supportedVersionVector
   | certificates | certificateEntry
+  | clientCertificateTypeVector | distinguishedNameVector | distinguishedName
+  -- the extension classes with structured bodies (CpModel/Tls/Ext2.lean) and what they invoke
+  | extensionStructured | opaqueLeaf | protocolNameList | protocolName | responderIdList
+  | keyShareEntryVector | keyShareEntry | sctList | sct
 deriving DecidableEq, Repr
 
 def Cls.all : List Cls :=
   [.record, .alert, .changeCipherSpec, .applicationData, .handshakeVariant, .clientHello, .serverHello,
-   .helloRetryRequest, .certificate, .serverKeyExchange, .certificateStatus, .serverHelloDone, .unmodelledHandshake,
+   .helloRetryRequest, .certificate, .serverKeyExchange, .certificateStatus, .serverHelloDone, .certificateRequest,
+   .unmodelledHandshake,
    .protocolVersion, .helloRandom, .sessionIdVector, .cipherSuiteVector, .compressionMethodVector, .cipherSuite,
    .compressionMethod, .extensionsClient, .extensionsServer, .extensionVariantClient, .extensionVariantServer,
    .extensionParsed, .extensionUnparsed, .extensionType, .codedVector, .codedItem, .renegotiatedConnection,
-   .supportedVersionVector, .certificates, .certificateEntry]
+   .supportedVersionVector, .certificates, .certificateEntry, .clientCertificateTypeVector, .distinguishedNameVector,
+   .distinguishedName, .extensionStructured, .opaqueLeaf, .protocolNameList, .protocolName, .responderIdList,
+   .keyShareEntryVector, .keyShareEntry, .sctList, .sct]
 
 /-- the classes whose `_parse` a class's `_parse` invokes (as the model composes them) -/
 def Cls.calls : Cls → List Cls
@@ -367,21 +489,25 @@ def Cls.calls : Cls → List Cls
   | .alert | .changeCipherSpec | .applicationData => []
   | .handshakeVariant =>
     [.clientHello, .serverHello, .helloRetryRequest, .certificate, .serverKeyExchange, .certificateStatus,
-     .serverHelloDone, .unmodelledHandshake]
+     .serverHelloDone, .certificateRequest, .unmodelledHandshake]
   | .clientHello =>
     [.protocolVersion, .helloRandom, .sessionIdVector, .cipherSuiteVector, .compressionMethodVector, .extensionsClient]
   | .serverHello | .helloRetryRequest =>
     [.protocolVersion, .helloRandom, .sessionIdVector, .cipherSuite, .compressionMethod, .extensionsServer]
   | .certificate => [.certificates]
+  | .certificateRequest => [.clientCertificateTypeVector, .codedVector, .distinguishedNameVector]
   | .serverKeyExchange | .certificateStatus | .serverHelloDone | .unmodelledHandshake => []
   | .protocolVersion | .helloRandom | .sessionIdVector | .cipherSuite | .compressionMethod => []
   | .cipherSuiteVector => [.cipherSuite, .codedItem]
   | .compressionMethodVector => [.compressionMethod, .codedItem]
   | .extensionsClient => [.extensionVariantClient, .extensionUnparsed]
   | .extensionsServer => [.extensionVariantServer, .extensionUnparsed]
-  | .extensionVariantClient | .extensionVariantServer => [.extensionParsed, .extensionUnparsed]
+  | .extensionVariantClient | .extensionVariantServer => [.extensionParsed, .extensionStructured, .extensionUnparsed]
   | .extensionParsed =>
     [.extensionType, .codedVector, .renegotiatedConnection, .supportedVersionVector, .protocolVersion]
+  | .extensionStructured =>
+    [.extensionType, .opaqueLeaf, .protocolNameList, .responderIdList, .keyShareEntryVector, .keyShareEntry,
+     .codedItem, .codedVector, .sctList]
   | .extensionUnparsed => [.codedItem]
   | .extensionType => []
   | .codedVector => [.codedItem]
@@ -389,6 +515,14 @@ def Cls.calls : Cls → List Cls
   | .supportedVersionVector => [.protocolVersion, .codedItem]
   | .certificates => [.certificateEntry]
   | .certificateEntry => []
+  | .clientCertificateTypeVector | .distinguishedName | .opaqueLeaf | .protocolName => []
+  | .distinguishedNameVector => [.distinguishedName]
+  | .protocolNameList => [.protocolName]
+  | .responderIdList => [.opaqueLeaf]
+  | .keyShareEntryVector => [.keyShareEntry]
+  | .keyShareEntry => [.codedItem, .opaqueLeaf]
+  | .sctList => [.sct]
+  | .sct => [.opaqueLeaf, .codedItem]
 
 /-- longest call chain starting at a class, computed with fuel -/
 def Cls.depth : Nat → Cls → Nat
@@ -397,13 +531,15 @@ def Cls.depth : Nat → Cls → Nat
 
 /-- a topological rank: every invoked class has a strictly smaller rank -/
 def Cls.rank : Cls → Nat
-  | .handshakeVariant => 6
-  | .clientHello | .serverHello | .helloRetryRequest => 5
-  | .extensionsClient | .extensionsServer => 4
-  | .extensionVariantClient | .extensionVariantServer => 3
-  | .extensionParsed | .certificate => 2
+  | .handshakeVariant => 7
+  | .clientHello | .serverHello | .helloRetryRequest => 6
+  | .extensionsClient | .extensionsServer => 5
+  | .extensionVariantClient | .extensionVariantServer => 4
+  | .extensionStructured => 3
+  | .extensionParsed | .certificate | .certificateRequest | .keyShareEntryVector | .sctList => 2
   | .codedVector | .supportedVersionVector | .cipherSuiteVector | .compressionMethodVector | .certificates
-  | .record | .extensionUnparsed => 1
+  | .record | .extensionUnparsed | .distinguishedNameVector | .protocolNameList | .responderIdList
+  | .keyShareEntry | .sct => 1
   | _ => 0
 
 end Cp.Cost
